@@ -27,12 +27,14 @@ def link_fault_items(rng, timeout_ns, prev_keys, version, agent_cfg, lat):
         elif kind == "msgid-or-version":
             if version == "v3":
                 it["rewrite"] = {"msg-id": rng.choice(["prev", "zero", "plus1", "xor1", "bit31", "bit32", rng.randrange(2**31)])}
+                if rng.random() < 0.25:
+                    it["rewrite"] = {"version": rng.choice(["alias256", "alias-256", "alias2^32", "alias65536"])}
                 if rng.random() < 0.4:
                     it["rewrite"]["engine-id"] = rng.choice(["80001f8880aabbccde", "0102030405"])
                 if rng.random() < 0.3:
                     it["rewrite"]["ctx-name"] = rng.choice([b"ctx".hex(), b"\x00".hex(), ("61" * 40)])
             else:
-                it["rewrite"] = {"version": {"v1": 1, "v2c": 0}[version]}
+                it["rewrite"] = {"version": rng.choice([{"v1": 1, "v2c": 0}[version], "alias256", "alias-256", "alias2^32", "alias65536"])}
         elif kind == "engine":
             if version == "v3":
                 it["rewrite"] = {"engine-id": rng.choice(["80001f8880aabbccde", "0102030405", "", "ext:00", "ext:%02x" % rng.randrange(256), "ext:0102", "cut"])}
